@@ -147,9 +147,21 @@ def main():
         ctx = Ctx(pid, "quick", 0, Model())
         if hasattr(mod, "replay"):
             print(json.dumps(mod.replay(ctx, data), indent=1, default=str))
-        else:
-            print(json.dumps(data, indent=1))
-        return 0
+            return 0
+        print(json.dumps(data, indent=1)[:6000])
+        if data.get("kind") != "failing-input":
+            return 0
+        # generic replay: run the property's generators again with the recorded seed / tier and look for the recorded input
+        ctx = Ctx(pid, data.get("tier", "quick"), int(data.get("seed", 0)), ctx.model)
+        rep = Report(pid)
+        mod.run(ctx, rep)
+        want = json.dumps(data["failure"]["input"], sort_keys=True, default=str)
+        again = [f for f in rep.failures if f["kind"] == "oracle" and f["klass"] == data["failure"]["klass"]
+                 and json.dumps(f["input"], sort_keys=True, default=str) == want]
+        same_class = [f for f in rep.failures if f["kind"] == "oracle" and f["klass"] == data["failure"]["klass"]]
+        print("REPLAY:", "the recorded input fails again on the current tree" if again else
+              (f"the recorded input no longer fails ({len(same_class)} other failures of class {data['failure']['klass']})"))
+        return 1 if again else 0
     tier = argv[1] if len(argv) > 1 else os.environ.get("VERIF_TIER", "quick")
     if tier not in ("quick", "thorough"):
         tier = "quick"
@@ -220,8 +232,8 @@ def main():
     exit_code = 0
     if unknown:
         violations = len(unknown)
-        path = write_replay(pid, {"property": pid, "kind": "failing-input", "failure": unknown[0],
-                                  "more": unknown[1:5], "broken": broken})
+        path = write_replay(pid, {"property": pid, "kind": "failing-input", "tier": tier, "seed": seed,
+                                  "failure": unknown[0], "more": unknown[1:5], "broken": broken})
         print(f"VIOLATION property={pid} replay={path}")
         exit_code = 1
     elif broken:
